@@ -729,3 +729,188 @@ Example C04_mac_client_sources_off_premises_satisfiable :
     container_lookup sc r [] ([192;168;1;51], []) = None /\
     no_cid (fst r) [] /\ no_ip (fst r) ([192;168;1;50], []) /\ no_cidr (fst r) ([192;168;1;50], []).
 Proof. exact example_mac_client_sources_off. Qed.
+
+From AGH Require Import Model.ClientHTTP Proofs.ClientHTTP.
+
+(** * Round 5: the clients HTTP API as the entry point of registry histories
+    (Model/ClientHTTP.v, Proofs/ClientHTTP.v).
+
+    jsonToClient builds the record toPersistent builds for the file object with
+    the same fields, and the client's own safe-search engine under the same
+    guard: whatever holds for clients loaded from the configuration holds for
+    clients set over HTTP. *)
+Theorem C04_http_body_is_object : forall known g cj c x,
+  json_to_client known g cj = JOk c x ->
+  to_persistent known g (obj_of_json g cj) = COk c (hx_extra x) /\ x = with_engine (hx_extra x).
+Proof. exact json_as_object. Qed.
+Print Assumptions C04_http_body_is_object.
+
+Theorem C04_http_conversion_total : forall known g cj,
+  (exists c x, json_to_client known g cj = JOk c x) <->
+  (forallb (fun i => existsb (eqb_bytes i) known) (j_blocked cj) = true /\ existsb is_bad (j_ids cj) = false).
+Proof. exact json_to_client_total. Qed.
+Print Assumptions C04_http_conversion_total.
+
+(** Every field of the converted record in terms of the body alone; the
+    safe-search configuration AND the engine come from [body_ss]. *)
+Theorem C04_http_fields_as_body : forall known g cj c x,
+  json_to_client known g cj = JOk c x -> as_body g cj c x.
+Proof. exact json_fields. Qed.
+Print Assumptions C04_http_fields_as_body.
+
+(** The CURRENT [safe_search] object wins whenever the body has one, also
+    against a contradictory deprecated flag; the flag counts only without it. *)
+Theorem C04_http_current_object_wins : forall cj s, j_ss cj = Some s -> body_ss cj = s.
+Proof. exact current_object_wins. Qed.
+Print Assumptions C04_http_current_object_wins.
+
+Theorem C04_http_deprecated_flag_alone : forall cj,
+  j_ss cj = None -> body_ss cj = if j_ss_dep cj then all_on_ss else zero_ss.
+Proof. exact deprecated_flag_alone. Qed.
+Print Assumptions C04_http_deprecated_flag_alone.
+
+(** Every history of add / update / delete requests, accepted or refused,
+    decodable or not, from the empty container keeps the registry one the
+    loader could have produced (hence [Inv], records validated and normalized)
+    with every engine built from the stored configuration; so does any history
+    from a registry Init loaded. *)
+Theorem C04_http_good_any_history : forall cfg known ops, HGood cfg known (hrun cfg known ops empty_hreg).
+Proof. exact http_good_any_history. Qed.
+Print Assumptions C04_http_good_any_history.
+
+Theorem C04_http_good_from_loaded : forall cfg known objs r ops,
+  load cfg known objs = LOk r -> HGood cfg known (hrun cfg known ops (to_hreg r)).
+Proof.
+  exact (fun cfg known objs r ops H => HGood_run cfg known ops _ (HGood_loaded cfg known r (load_good cfg known objs r H))).
+Qed.
+Print Assumptions C04_http_good_from_loaded.
+
+Theorem C04_http_index_consistent : forall cfg known ops, Inv (fst (hrun cfg known ops empty_hreg)).
+Proof. exact (fun cfg known ops => g_inv _ _ _ (hg_good _ _ _ (http_good_any_history cfg known ops))). Qed.
+Print Assumptions C04_http_index_consistent.
+
+Theorem C04_http_failed_request_is_noop : forall cfg known r o r' e,
+  http_step cfg known r o = (r', e) -> e <> HOk -> r' = r.
+Proof. exact http_fail_noop. Qed.
+Print Assumptions C04_http_failed_request_is_noop.
+
+(** A request leaves every client other than its target exactly as it was,
+    record, safe-search configuration and engine. *)
+Theorem C04_http_other_clients_untouched : forall cfg known r o r' e u,
+  Inv (fst r) -> http_step cfg known r o = (r', e) -> target r o <> Some u ->
+  deref (fst r') u = deref (fst r) u /\ hextra_of r' u = hextra_of r u.
+Proof. exact http_step_frame. Qed.
+Print Assumptions C04_http_other_clients_untouched.
+
+(** WHICH ENGINE ANSWERS.  A request attributed to a client that opted out of
+    the global settings: for every service the verdict of
+    DNSFilter.checkSafeSearch is that of the CLIENT's stored per-service
+    switches, whatever the global engine holds ... *)
+Theorem C04_http_own_safe_search : forall cfg known r dhcp id a g global u c,
+  HGood cfg known r ->
+  acf_find (fst r) dhcp id a = Some u -> deref (fst r) u = Some c -> c_own_settings c = true ->
+  exists es, h_acf r dhcp id a g = Some es /\
+    es_settings es = apply_client c g /\
+    forall v, check_safe_search global true es v = engine_rewrites (x_ss (hx_extra (hextra_of r u))) v.
+Proof. exact verdict_own. Qed.
+Print Assumptions C04_http_own_safe_search.
+
+(** ... and that of the global engine under the global switch for a client
+    that did not, and for nobody's request: "exactly when". *)
+Theorem C04_http_global_safe_search_otherwise : forall r dhcp id a g global,
+  (forall u c, acf_find (fst r) dhcp id a = Some u -> deref (fst r) u = Some c -> c_own_settings c = false ->
+     exists es, h_acf r dhcp id a g = Some es /\
+       forall v, check_safe_search global true es v = s_safesearch g && engine_rewrites global v) /\
+  (acf_find (fst r) dhcp id a = None ->
+     exists es, h_acf r dhcp id a g = Some es /\ es_settings es = g /\
+       forall v, check_safe_search global true es v = s_safesearch g && engine_rewrites global v).
+Proof.
+  exact (fun r dhcp id a g global =>
+    conj (fun u c F D O => verdict_global_client r dhcp id a g global u c F D O)
+         (verdict_nobody r dhcp id a g global)).
+Qed.
+Print Assumptions C04_http_global_safe_search_otherwise.
+
+(** After ANY history the record stored under a uid is the conversion of the
+    body that last set it (tags sorted, the storage's uid), with its engine. *)
+Theorem C04_http_history_as_body : forall cfg known ops,
+  let rb := hrun_track cfg known ops empty_hreg [] in
+  HGood cfg known (fst rb) /\ AsBody known (fst rb) (snd rb).
+Proof. exact http_history_as_body. Qed.
+Print Assumptions C04_http_history_as_body.
+
+(** THE PROPERTY OVER HTTP: after any history, the effective settings of any
+    request are those the CURRENT fields of the last accepted body of its
+    client state: own flags and own per-service safe-search verdicts exactly
+    when [use_global_settings] is false, the global ones otherwise; the own
+    blocked services exactly when [use_global_blocked_services] is false. *)
+Theorem C04_http_effective_as_body : forall cfg known ops dhcp id a g global u,
+  let rb := hrun_track cfg known ops empty_hreg [] in
+  acf_find (fst (fst rb)) dhcp id a = Some u ->
+  exists cj es,
+    body_of (snd rb) u = Some cj /\ h_acf (fst rb) dhcp id a g = Some es /\
+    s_client_name (es_settings es) = j_name cj /\
+    s_tags (es_settings es) = sort_names (j_tags cj) /\
+    (j_use_global_settings cj = false ->
+       s_filtering (es_settings es) = j_filtering cj /\
+       s_parental (es_settings es) = j_parental cj /\
+       s_safebrowsing (es_settings es) = j_safebrowsing cj /\
+       s_safesearch (es_settings es) = ss_enabled (body_ss cj) /\
+       forall v, check_safe_search global true es v = engine_rewrites (body_ss cj) v) /\
+    (j_use_global_settings cj = true ->
+       s_filtering (es_settings es) = s_filtering g /\
+       s_parental (es_settings es) = s_parental g /\
+       s_safebrowsing (es_settings es) = s_safebrowsing g /\
+       s_safesearch (es_settings es) = s_safesearch g /\
+       forall v, check_safe_search global true es v = s_safesearch g && engine_rewrites global v) /\
+    (j_use_global_blocked cj = false ->
+       s_blocked (es_settings es) = Some (copy_blocked (j_sched cj) (j_blocked cj))) /\
+    (j_use_global_blocked cj = true -> s_blocked (es_settings es) = s_blocked g).
+Proof. exact http_effective_as_body. Qed.
+Print Assumptions C04_http_effective_as_body.
+
+(** GET /control/clients after any history: exactly the stored clients, each
+    in the canonical JSON form of the body that last set it, in strictly
+    increasing name order. *)
+Theorem C04_http_get_after_history : forall cfg known ops,
+  let rb := hrun_track cfg known ops empty_hreg [] in
+  (forall j, In j (http_get (fst rb)) <->
+     exists u c cj, deref (fst (fst rb)) u = Some c /\ body_of (snd rb) u = Some cj /\ j = canon_json cj) /\
+  StronglySorted (fun a b => cmp_bytes (j_name a) (j_name b) = Lt) (http_get (fst rb)).
+Proof. exact http_get_after_history. Qed.
+Print Assumptions C04_http_get_after_history.
+
+(** The JSON form loses nothing: what GET returned, posted as the body of an
+    update, converts to the very record and engine (cf. C04_config_roundtrip
+    for the YAML form). *)
+Theorem C04_http_json_roundtrip : forall cfg known r u c,
+  HGood cfg known r -> deref (fst r) u = Some c -> x_nil_sched (hx_extra (hextra_of r u)) = false ->
+  json_to_client known u (client_to_json c (hx_extra (hextra_of r u))) = JOk c (hextra_of r u).
+Proof. exact json_roundtrip. Qed.
+Print Assumptions C04_http_json_roundtrip.
+
+(** Save + restart after any history: same records, same configurations and
+    engines, so the same settings and verdicts for every request. *)
+Theorem C04_http_restart_same : forall cfg known r,
+  HGood cfg known r ->
+  exists r', restart cfg known r = Some r' /\ HGood cfg known r' /\
+    (forall u, deref (fst r) u = deref (fst r') u) /\
+    (forall u c, deref (fst r) u = Some c -> hextra_of r' u = hextra_of r u) /\
+    (forall dhcp id a g, h_acf r' dhcp id a g = h_acf r dhcp id a g).
+Proof. exact restart_same. Qed.
+Print Assumptions C04_http_restart_same.
+
+Example C04_http_premises_satisfiable :
+  let r3 := hrun ex_conf_cfg [] (firstn 3 ex_ops_http) empty_hreg in
+  let r4 := hrun ex_conf_cfg [] ex_ops_http empty_hreg in
+  acf_find (fst r3) (fun _ => None) [] (v4 192 168 7 7) = Some 1 /\
+  ex_verdicts r3 (v4 192 168 7 7) = Some [true; true; true; true; true; true; false] /\
+  ex_verdicts r3 (v4 192 168 7 8) = Some [true; true; true; true; true; true; true] /\
+  ex_verdicts r3 (v4 192 168 7 99) = Some [true; true; true; true; true; true; true] /\
+  snd (http_step ex_conf_cfg [] (hrun ex_conf_cfg [] (firstn 2 ex_ops_http) empty_hreg)
+         (nth 2 ex_ops_http (HDelete None))) = HStore EIP /\
+  ex_verdicts r4 (v4 192 168 7 8) = Some [true; true; true; true; true; true; false] /\
+  map j_name (http_get r4) = [[108]; [116]] /\
+  option_map (fun r => ex_verdicts r (v4 192 168 7 8)) (restart ex_conf_cfg [] r4) =
+    Some (Some [true; true; true; true; true; true; false]).
+Proof. exact example_http_history. Qed.
